@@ -92,3 +92,7 @@ claim("C16", "property-based testing with adversarial generators; oracle = no er
 claim("C37", "property-based testing: event-stream replay vs index tables over generated histories",
       "Events from Index::open_with_event_sender are folded (locations, charms, parents, etchings, mints, burns, balances) and compared with the dump.",
       "Events within one transaction are treated as a set.")
+
+claim("C14", "stateful property-based testing (proptest op sequences) with a from-scratch differential oracle and a deterministic livelock hook",
+      "Generated mine/update/reorg/reopen histories with small savepoint intervals; after every update the index equals a from-scratch index of the node's chain, or the reorg is reported unrecoverable and flagged; livelock decided by hook H3.",
+      "mock node reports headers=0 (savepoints as at the tip); new branch always longer.", category="exploration")
